@@ -112,12 +112,17 @@ package processor
 //@ pred accepted(p *Processor, m *gossipv1.SignedObservation) = len(m.Hash) == 32 && len(m.Signature) == 65 && ecrec_ok(from32(m.Hash), from65(m.Signature))
 //@   | && vaa.pk2addr(ecrec(from32(m.Hash), from65(m.Signature))) == b2a(m.Addr)
 //@   | && gsFor(p, m) != nil && (exists n in 0..len(gsFor(p, m).Keys) :: gsFor(p, m).Keys[n] == b2a(m.Addr))
+// untouched: aggregation state, outbound queues and the store are exactly as before
+//@ pred untouched(p *Processor) = unchanged("vaaState.*") && unchanged("map[string]*vaaState") && unchanged("map[ethcommon.Address][]byte") && unchanged("chan") && storeUnchanged(p.db)
 // signedBy(p, m): number of keys of the applicable set whose signature is recorded for m's digest
 //@ pure signedBy(p *Processor, m *gossipv1.SignedObservation, gs *common.GuardianSet) = cntKeys(domOf(entryOf(p, m).signatures), gs.Keys, len(gs.Keys))
 
 //@ func (p *Processor) handleObservation(ctx context.Context, m *gossipv1.SignedObservation)
 //@   props C13 C01 C02 C03
-//@   ensures [frame-on-reject] !old(accepted(p, m)) ==> unchanged("vaaState.*") && unchanged("map[string]*vaaState") && unchanged("map[ethcommon.Address][]byte") && unchanged("chan") && storeUnchanged(p.db)
+//@   ensures [reject-bad-signature] !old(len(m.Hash) == 32 && len(m.Signature) == 65 && ecrec_ok(from32(m.Hash), from65(m.Signature))) ==> untouched(p)
+//@   ensures [reject-address-mismatch] old(len(m.Hash) == 32 && len(m.Signature) == 65 && ecrec_ok(from32(m.Hash), from65(m.Signature)) && vaa.pk2addr(ecrec(from32(m.Hash), from65(m.Signature))) != b2a(m.Addr)) ==> untouched(p)
+//@   ensures [reject-no-set] old(gsFor(p, m)) == nil ==> untouched(p)
+//@   ensures [reject-non-member] old(gsFor(p, m) != nil && !(exists n in 0..len(gsFor(p, m).Keys) :: gsFor(p, m).Keys[n] == b2a(m.Addr))) ==> untouched(p)
 //@   ensures [entry-on-accept] old(accepted(p, m)) ==> indom(p.state.vaaSignatures, hexs(m.Hash))
 //@   ensures [recorded-on-accept] old(accepted(p, m)) ==> indom(entryOf(p, m).signatures, b2a(m.Addr))
 //@   ensures [recorded-bytes] old(accepted(p, m)) ==> entryOf(p, m).signatures[b2a(m.Addr)] == m.Signature
